@@ -288,8 +288,11 @@ impl<'a> P<'a> {
                     b"null" => return Ok(Val::Null),
                     _ => {}
                 }
-                match Self::number(tok) {
-                    Some(Val::Int(n)) if n >= 0 && !tok.starts_with(b"+") => {
+                // object numbers are not limited to the 32-bit integer range
+                let as_objnr = if !tok.is_empty() && tok.iter().all(|c| c.is_ascii_digit()) { std::str::from_utf8(tok).ok().and_then(|t| t.parse::<u64>().ok()) } else { None };
+                match (as_objnr, Self::number(tok)) {
+                    (Some(n), Some(numval)) => {
+                        let n = n as i64;
                         // reference look-ahead: <int> <int> R
                         let save = self.pos;
                         self.skip_ws();
@@ -306,10 +309,11 @@ impl<'a> P<'a> {
                             }
                         }
                         self.pos = save;
-                        Ok(Val::Int(n))
+                        let _ = n;
+                        Ok(numval)
                     }
-                    Some(v) => Ok(v),
-                    None => {
+                    (_, Some(v)) => Ok(v),
+                    (_, None) => {
                         self.pos = start;
                         self.err("unknown token")
                     }
